@@ -54,6 +54,16 @@ def run_case(ctx, S, a, b, m, tag, reuse=None):
             list(prev.ticks(m)) if m is not None else list(prev.ticks())
             prev.tickFormat(m) if m is not None else prev.tickFormat()
             ctx.path("copy-sibling-asked-first")
+        elif reuse == "same-object-after-a-degenerate-domain":
+            # the scale object held a single-point domain before (ticks asked there too); it is an ordinary scale again afterwards
+            s = S.LinearScale().domain([a, a])
+            try:
+                list(s.ticks(m)) if m is not None else list(s.ticks())
+                s.tickFormat(m) if m is not None else s.tickFormat()
+            except Exception:
+                pass
+            s.domain([a, b])
+            ctx.path("same-object-after-a-degenerate-domain")
         elif reuse == "format-for-other-count-first":
             s = S.LinearScale().domain([a, b])
             s.tickFormat(3 if m != 3 else 7)
@@ -142,7 +152,7 @@ def worker(ctx, shard):
         ctx.path("process-with-lowered-decimal-precision")
     for _ in range(shard["n"]):
         a, b, m, tag = lin.gen_domain(rng)
-        run_case(ctx, S, a, b, m, tag, reuse=rng.choice([None, None, None, "same-object", "copy", "ticks-then-nice", "ticks-then-nice-other-count", "copy-sibling-asked-first", "format-for-other-count-first", "ticks-held-across-nice", "float-count", "formatter-held-across-other-formats"]))
+        run_case(ctx, S, a, b, m, tag, reuse=rng.choice([None, None, None, "same-object", "copy", "ticks-then-nice", "ticks-then-nice-other-count", "copy-sibling-asked-first", "format-for-other-count-first", "ticks-held-across-nice", "float-count", "formatter-held-across-other-formats", "same-object-after-a-degenerate-domain"]))
     for k, v in cnt.items():
         ctx.event(k, v)
     p.uninstall()
